@@ -67,6 +67,17 @@ def stream_len(tier, seed):
         if v <= 0xFFFFFFFF:
             add(b"\xfe" + struct.pack("<I", v), counters if v in (0xFFFF, 0x10000, 0xFFFFFFFF) else (rng.choice(counters),))
         add(b"\xff" + struct.pack("<Q", v), counters if v in (0xFFFFFFFF, 0x100000000, btc.U64MAX) else (rng.choice(counters),))
+    # every boundary form followed by 8+ further bytes (zero / non-zero): a decoder that loads a whole
+    # word after the marker must still judge minimality on its own width only
+    for v in sorted(vals):
+        for tail in (b"\xaa" * 9, b"\x00" * 9, b"\x00\x00\x00\x01" + b"\x00" * 5):
+            if v <= 0xFFFF:
+                add(b"\xfd" + struct.pack("<H", v) + tail, (rng.choice(counters),))
+            if v <= 0xFFFFFFFF:
+                add(b"\xfe" + struct.pack("<I", v) + tail, (rng.choice(counters),))
+    for v in range(0, 65536, 257):
+        add(b"\xfd" + struct.pack("<H", v) + b"\x55" * 8)
+        add(b"\xfe" + struct.pack("<I", v) + b"\x55" * 8)
     # exhaustive 5-byte forms over a stripe in thorough
     if tier == "thorough":
         for v in range(0, 1 << 20):
@@ -308,6 +319,18 @@ def stream_struct(tier, seed):
         group("transaction", b, fields, nbreak_tx(tx), tag="valid")
         for why, m in mutate(rng, b, fields, 3 if quick else 8):
             group("transaction", m, fields, nbreak_tx(tx), tag="mut:" + why, prefixes=(k % 4 == 0), maxbrk=6)
+    # marker followed by every kind of flag byte, on a complete body and on every truncation of it
+    # (an unknown flag must win over any later defect)
+    for flag in (0, 2, 3, 5, 0x81, 0xFF):
+        tx = btc.rand_tx(rng, segwit=True, nin=rng.choice([1, 2]), nout=1)
+        if flag in (3, 0x81):
+            tx["wits"] = [[] for _ in tx["ins"]]
+        b, fields = btc.tx_bytes(tx)
+        off = [f for f in fields if f[0] == "flag"][0][1]
+        m = b[:off] + bytes([flag]) + b[off + 1:]
+        group("transaction", m, fields, nbreak_tx(tx), tag="flag%d" % flag, maxbrk=4)
+        m2 = m[:60] + b"\xfd\x01\x00" + m[61:] if len(m) > 70 else m
+        group("transaction", m2, [], nbreak_tx(tx), tag="flag%d+nonmin" % flag, prefixes=False, maxbrk=2)
     # degenerate shapes: zero-input segwit, zero-output, many empties
     for nin, nout, sw in [(0, 0, True), (0, 1, True), (1, 0, False), (1, 0, True), (2, 2, True), (3, 0, True)]:
         for _ in range(2 * scale):
@@ -321,7 +344,7 @@ def stream_struct(tier, seed):
         b, fields = btc.tx_bytes(tx)
         group("transaction", b, fields, nbreak_tx(tx), tag="nowit")
     # many inputs / outputs (compact-size boundary of the counts)
-    for nin, nout in ([(253, 1), (1, 253), (252, 2)] if quick else [(253, 1), (1, 253), (252, 252), (300, 300), (1, 700)]):
+    for nin, nout in ([(253, 1), (1, 253), (252, 2), (1, 254), (2, 300), (254, 1)] if quick else [(253, 1), (1, 253), (252, 252), (300, 300), (1, 700), (1, 254), (254, 1)]):
         tx = btc.rand_tx(rng, nin=nin, nout=nout)
         for i in tx["ins"]:
             i["sig"] = i["sig"][:3]
@@ -420,6 +443,15 @@ def stream_struct(tier, seed):
         blk = {"header": btc.rand_header(rng), "txs": [btc.rand_tx(rng, nin=1, nout=1), tx, btc.rand_tx(rng, nin=1, nout=1)]}
         bb, bf = btc.block_bytes(blk)
         group("block", bb, bf, 12, tag="bigwit", big=True, maxbrk=3)
+    # valid lists at the 65535/65536 count boundary: implementation side judged by the independent
+    # reference decoder only (id prefix "ro": the list-based Coq model is quadratic on such counts)
+    for cnt in ((65535, 65536) if quick else (65534, 65535, 65536, 65537)):
+        outs = [{"value": (7 * k + 1) % (1 << 40), "spk": b""} for k in range(cnt)]
+        b, _ = btc.obj_bytes("txouts", outs)
+        gid = "ro%d" % cnt
+        meta[gid] = {"entry": "txouts", "tag": "bigcount", "len": len(b)}
+        lines.append(P(gid + ".full", "txouts", b + b"\x77"))
+        lines.append(P("%s.p%d" % (gid, len(b) - 1), "txouts", b[:-1]))
     # script lengths across the boundaries, and huge declared lengths
     for ln in [0, 1, 252, 253, 254, 255, 256, 65535, 65536]:
         sb = btc.cs(ln) + btc.rand_bytes(rng, ln)
@@ -434,7 +466,7 @@ def stream_struct(tier, seed):
                   "transaction": "transaction", "tx_in": "txin", "tx_ins": "txins", "tx_out": "txout", "tx_outs": "txouts",
                   "witness": "witness", "witnesses": "witnesses"}
     for d, entry in sorted(corpus_map.items()):
-        files = sorted(glob.glob("/repo/fuzz/corpus/%s/*" % d))
+        files = sorted(glob.glob(os.path.join(os.environ.get("VERIF_REPO", "/repo"), "fuzz/corpus/%s/*" % d)))
         if quick:
             files = [f for i, f in enumerate(files) if i % 2 == 0]
         for fpath in files:
@@ -450,7 +482,7 @@ def stream_struct(tier, seed):
                     continue
                 param, data = data[0], data[1:]
             group(entry, data, [], 3, param=param, tag="corpus", prefixes=(len(data) <= 64), maxbrk=4)
-    corp = sorted(glob.glob("/verif/corpus/*.case"))
+    corp = sorted(glob.glob(os.path.join(os.path.dirname(os.path.dirname(os.path.abspath(__file__))), "corpus", "*.case")))
     for fpath in corp:
         for ln in open(fpath):
             ln = ln.strip()
